@@ -105,7 +105,7 @@ def run(ctx: Ctx):
     ctx.ob("C10-O3", "R18 table", f, "working matrix side is max(rows, cols)", len(nd) == 1 and ast.unparse(nd[0]) in ("max(n_rows, n_cols)", "max(n_cols, n_rows)"), "", node=f.node)
     copies = [n for n in own_nodes(f.node) if isinstance(n, ast.Assign) and ast.unparse(n.targets[0]) == f"{wm}[i][j]" and ast.unparse(n.value) == f"{user}[i][j]"]
     ctx.ob("C10-O3", "R18 table", f, "real cells are copied from the user's matrix at the same position", len(copies) == 1, "", node=f.node)
-    check_dual_update(ctx)
+    ctx.step(check_dual_update)
     # O5 running minima of the search are exact: `if X < Y: Y = X` with no tolerance on either side
     n_min = 0
     for n in own_nodes(f.node):
@@ -124,12 +124,12 @@ def run(ctx: Ctx):
     # O6 the steps of the row-by-row augmenting search
     from .sat_common import _need
 
-    _need(ctx, "C10-O6", "R16 PAIRED-EFFECTS", f, "every row (dummy rows included) starts a search from the virtual column 0 with fresh slacks and marks", ["for i in range(1, n + 1):\n        col_match[0] = i\n        current_col = 0\n        min_slack = [float('inf')] * (n + 1)\n        used = [False] * (n + 1)"])
-    _need(ctx, "C10-O6", "R16 PAIRED-EFFECTS", f, "each step marks the current column, takes its matched row, scans the unmarked columns for the reduced cost of that row, and moves to the column of minimum slack", ["while col_match[current_col] != 0:", "used[current_col] = True\n            matched_row = col_match[current_col]\n            delta = float('inf')\n            next_col = 0", "for j in range(1, n + 1):\n                if not used[j]:\n                    reduced_cost = matrix[matched_row - 1][j - 1] - row_potential[matched_row] - col_potential[j]", "augment_path[j] = current_col", "if min_slack[j] < delta:\n                        delta = min_slack[j]\n                        next_col = j", "current_col = next_col"])
-    _need(ctx, "C10-O6", "R16 PAIRED-EFFECTS", f, "the dual step raises the potentials of the marked columns' rows and lowers those columns; unmarked columns only lose slack", ["for j in range(n + 1):\n                if used[j]:\n                    row_potential[col_match[j]] += delta\n                    col_potential[j] -= delta\n                else:\n                    min_slack[j] -= delta"])
-    _need(ctx, "C10-O6", "R16 PAIRED-EFFECTS", f, "the search ends at a free column; the matching is flipped along the recorded path back to column 0", ["while current_col != 0:\n            prev_col = augment_path[current_col]\n            col_match[current_col] = col_match[prev_col]\n            current_col = prev_col"])
-    _need(ctx, "C10-O6", "R18 table", f, "potentials, match table and path table cover the n columns plus the virtual column 0", ["row_potential = [0.0] * (n + 1)\n    col_potential = [0.0] * (n + 1)\n    col_match = [0] * (n + 1)\n    augment_path = [0] * (n + 1)"])
-    _need(ctx, "C10-O6", "R1 STATUS-GUARD", f, "a matrix without rows or without columns leaves every row (if any) unassigned: one -1 per row", ["if not cost_matrix or not cost_matrix[0]:\n        return Result([-1] * len(cost_matrix), 0.0, 0, 0)", "n_rows = len(cost_matrix)\n    n_cols = len(cost_matrix[0])"])
+    ctx.step(_need, "C10-O6", "R16 PAIRED-EFFECTS", f, "every row (dummy rows included) starts a search from the virtual column 0 with fresh slacks and marks", ["for i in range(1, n + 1):\n        col_match[0] = i\n        current_col = 0\n        min_slack = [float('inf')] * (n + 1)\n        used = [False] * (n + 1)"])
+    ctx.step(_need, "C10-O6", "R16 PAIRED-EFFECTS", f, "each step marks the current column, takes its matched row, scans the unmarked columns for the reduced cost of that row, and moves to the column of minimum slack", ["while col_match[current_col] != 0:", "used[current_col] = True\n            matched_row = col_match[current_col]\n            delta = float('inf')\n            next_col = 0", "for j in range(1, n + 1):\n                if not used[j]:\n                    reduced_cost = matrix[matched_row - 1][j - 1] - row_potential[matched_row] - col_potential[j]", "augment_path[j] = current_col", "if min_slack[j] < delta:\n                        delta = min_slack[j]\n                        next_col = j", "current_col = next_col"])
+    ctx.step(_need, "C10-O6", "R16 PAIRED-EFFECTS", f, "the dual step raises the potentials of the marked columns' rows and lowers those columns; unmarked columns only lose slack", ["for j in range(n + 1):\n                if used[j]:\n                    row_potential[col_match[j]] += delta\n                    col_potential[j] -= delta\n                else:\n                    min_slack[j] -= delta"])
+    ctx.step(_need, "C10-O6", "R16 PAIRED-EFFECTS", f, "the search ends at a free column; the matching is flipped along the recorded path back to column 0", ["while current_col != 0:\n            prev_col = augment_path[current_col]\n            col_match[current_col] = col_match[prev_col]\n            current_col = prev_col"])
+    ctx.step(_need, "C10-O6", "R18 table", f, "potentials, match table and path table cover the n columns plus the virtual column 0", ["row_potential = [0.0] * (n + 1)\n    col_potential = [0.0] * (n + 1)\n    col_match = [0] * (n + 1)\n    augment_path = [0] * (n + 1)"])
+    ctx.step(_need, "C10-O6", "R1 STATUS-GUARD", f, "a matrix without rows or without columns leaves every row (if any) unassigned: one -1 per row", ["if not cost_matrix or not cost_matrix[0]:\n        return Result([-1] * len(cost_matrix), 0.0, 0, 0)", "n_rows = len(cost_matrix)\n    n_cols = len(cost_matrix[0])"])
     generic_sweeps(ctx)
 
 
